@@ -704,11 +704,21 @@ def itoa_alts(I, st, x, ii):
                 conds.append(ULE(mag, bvval(hi, 64)))
             alts.append((mk_and(conds), (neg, d, mag)))
     for st2, (neg, d, mag) in I.feasible_alts(st, alts):
-        digs = []
-        for k in range(d - 1, -1, -1):
-            q = z3.UDiv(mag, bvval(10 ** k, 64)) if k else mag
-            digs.append(Extract(7, 0, z3.URem(q, bvval(10, 64))) + bvval(48, 8))
-        digs = [z3.simplify(dg) for dg in digs]
+        # the decimal digits are fresh variables tied to the value by mag == sum(d_k * 10^k): equivalent to
+        # dividing by powers of ten (the digits are unique) but linear, which the solver handles
+        seq = next(ERRSEQ)
+        digs = [BitVec('itoa%d_%d' % (seq, k), 8) for k in range(d)]
+        cs = []
+        val = None
+        for k, dg in enumerate(digs):
+            lo = 49 if (k == 0 and d > 1) else 48
+            cs.append(And(UGE(dg, bvval(lo, 8)), ULE(dg, bvval(57, 8))))
+            dv = ZeroExt(56, dg - bvval(48, 8))
+            val = dv if val is None else val * bvval(10, 64) + dv
+        cs.append(mag == val)
+        st2.guard = st2.guard + tuple(cs)
+        st2.mvars = st2.mvars | frozenset(dg.decl().name() for dg in digs)
+        st2.model = None
         outs.append((st2, Str(((45,) if neg else ()) + tuple(digs))))
     return outs
 
